@@ -293,7 +293,7 @@ func c13Items() []c13Item {
 		}
 	}
 	// spellings another number base would read differently: FHIRPath integers are base ten, a leading zero is just a zero
-	for _, nb := range []string{"08", "09", "010", "0017", "+08", "-010", "0x1F", "0X1f", "0b11", "0o17", "1_000", "1e2", "0x"} {
+	for _, nb := range []string{"000000000042", "-00000000042", "0000000000000000000000000000002147483647", "08", "09", "010", "0017", "+08", "-010", "0x1F", "0X1f", "0b11", "0o17", "1_000", "1e2", "0x"} {
 		add("num.base", nb)
 	}
 	for _, b := range []string{"true", "false", "t", "f", "yes", "no", "y", "n", "TRUE", "False", "Yes", "T", "F", "tru", "on", "off", "2", "1.00"} {
